@@ -184,9 +184,7 @@ func RoutePatternMatch(path, pattern string, cfg ...Config) bool {
 
 	// Does this route have parameters
 	if len(parser.params) > 0 {
-		if match := parser.getMatch(path, path, &ctxParams, false); match {
-			return true
-		}
+		return parser.getMatch(path, path, &ctxParams, false)
 	}
 	// Check for a simple match
 	patternPretty = RemoveEscapeCharBytes(patternPretty)
